@@ -161,6 +161,10 @@ func (s *strConvAccErr) ParseSegStatusCodes(key, val string) []SegStatusCodes {
 		if codes[i].Cycle <= 0 {
 			s.err = fmt.Errorf("val=%q for key %q is not a valid. cycle is too small", val, key)
 		}
+		if codes[i].Cycle > math.MaxInt32 {
+			// cycle * timescale must not overflow (a wrapped product of 0 is divided by)
+			s.err = fmt.Errorf("val=%q for key %q is not a valid. cycle is too big", val, key)
+		}
 		if codes[i].Rsq < 0 {
 			s.err = fmt.Errorf("val=%q for key %q is not a valid. rsq is too small", val, key)
 		}
